@@ -17,22 +17,43 @@
 (***************************************************************************)
 EXTENDS Integers, Sequences, FiniteSets, TLC
 
-CONSTANTS FixLostTail,
-          MismatchResync   \* TRUE: an answer whose ack index differs from the sent index (the follower did not append:
+CONSTANTS
+  \* @type: Bool;
+  FixLostTail,
+  \* @type: Bool;
+  MismatchResync   \* TRUE: an answer whose ack index differs from the sent index (the follower did not append:
                            \* wrong position or its write failed) puts the replicator into the failure state, the next
                            \* iteration handshakes; FALSE (before the repair): the channel stays ready and goes on sending
 
 VARIABLES
-  lLog, lA, lQ,        \* leader log: [pos -> id], appended, queue-wide acknowledged
-  cons, gack,          \* leader's consumer group for the follower
-  fLog, fA, fQ,        \* follower log
+  \* @type: Int -> Int;
+  lLog,                \* leader log: [pos -> id]
+  \* @type: Int;
+  lA,                  \* ... appended
+  \* @type: Int;
+  lQ,                  \* ... queue-wide acknowledged
+  \* @type: Int;
+  cons,                \* leader's consumer group for the follower: consumed
+  \* @type: Int;
+  gack,                \* ... acknowledged
+  \* @type: Int -> Int;
+  fLog,                \* follower log
+  \* @type: Int;
+  fA,
+  \* @type: Int;
+  fQ,
+  \* @type: Str;
   st,                  \* replicator state: "init" "ready" "fail"
+  \* @type: Str;
   stream,              \* "none" "open" "broken" (the follower side died / restarted)
+  \* @type: Bool;
   aligned              \* ghost: FALSE between a leader tail loss and the next handshake
 
 vars == <<lLog, lA, lQ, cons, gack, fLog, fA, fQ, st, stream, aligned>>
 
+\* @type: Int -> Int;
 Empty == [x \in {} |-> 0]
+\* @type: (Int -> Int, Int, Int) => Int -> Int;
 Put1(f, k, v) == [x \in (DOMAIN f) \cup {k} |-> IF x = k THEN v ELSE f[x]]
 
 Init ==
@@ -51,44 +72,51 @@ LeaderAppend(id) ==
   /\ UNCHANGED <<lQ, cons, gack, fLog, fA, fQ, st, stream, aligned>>
 
 \* ---- IsReady: the handshake (state is not ready)
-\* rpcfail: "none" | "ack" (GetReplicaAckIndex failed) | "reset" (Reset failed)
+\* rpcfail: "none" | "ack" (GetReplicaAckIndex failed) | "reset" (Reset failed) | "connect" (stream creation failed)
+\* the state the handshake ends in: "ready" (IsReady succeeded and Connect() worked) or "fail"; the Reset rpc is only
+\* made when the follower is behind the leader's acknowledged position (and the fast path is not taken)
+HsResult(rpcfail) ==
+  IF rpcfail = "ack" \/ rpcfail = "connect" THEN "fail"
+  ELSE IF rpcfail = "reset" /\ fA + 1 # cons + 1 /\ fA < gack THEN "fail"
+  ELSE "ready"
+
 Handshake(rpcfail) ==
   /\ st # "ready"
+  /\ st' = HsResult(rpcfail)
   /\ IF rpcfail = "ack"
-       THEN st' = "fail" /\ UNCHANGED <<lLog, lA, lQ, cons, gack, fLog, fA, fQ>>
+       THEN UNCHANGED <<lLog, lA, lQ, cons, gack, fLog, fA, fQ>>
        ELSE
        LET R == fA                 \* follower: ReplicaAckIndex() = its appended sequence
            next == R + 1
            appendIdx == lA + 1
-           ok == IF rpcfail = "connect" THEN "fail" ELSE "ready"   \* IsReady succeeded, Connect() may not
        IN
-       /\ IF next = cons + 1
-            THEN /\ IF FixLostTail /\ R > lA
-                      THEN \* repaired: the leader lost its tail, adopt the follower's position
-                           lA' = R /\ lQ' = R /\ cons' = R /\ gack' = R
-                      ELSE UNCHANGED <<lA, lQ, cons, gack>>
-                 /\ st' = ok /\ UNCHANGED <<lLog, fLog, fA, fQ>>
-          ELSE IF R < gack
-            THEN \* follower is behind the leader's ack: reset its append index to ack + 1
-                 IF rpcfail = "reset"
-                   THEN st' = "fail" /\ UNCHANGED <<lLog, lA, lQ, cons, gack, fLog, fA, fQ>>
-                   ELSE /\ fA' = gack /\ fQ' = gack        \* FanOutQueue.SetAppendedSeq(ack)
-                        /\ cons' = gack                     \* ResetReplicaIndex(ack + 1)
-                        /\ st' = ok /\ UNCHANGED <<lLog, lA, lQ, gack, fLog>>
-          ELSE IF (IF FixLostTail THEN R >= appendIdx ELSE R > appendIdx)
-            THEN \* follower is ahead of the leader's log: ResetAppendIndex(next) (queue and every group)
-                 /\ lA' = R /\ lQ' = R /\ cons' = R /\ gack' = R
-                 /\ st' = ok /\ UNCHANGED <<lLog, fLog, fA, fQ>>
-            ELSE \* rewind the replica cursor to what the follower needs next
-                 /\ cons' = R /\ gack' = AckTo(R, R, gack)
-                 /\ st' = ok /\ UNCHANGED <<lLog, lA, lQ, fLog, fA, fQ>>
+       IF next = cons + 1
+         THEN /\ IF FixLostTail /\ R > lA
+                   THEN \* repaired: the leader lost its tail, adopt the follower's position
+                        lA' = R /\ lQ' = R /\ cons' = R /\ gack' = R
+                   ELSE UNCHANGED <<lA, lQ, cons, gack>>
+              /\ UNCHANGED <<lLog, fLog, fA, fQ>>
+       ELSE IF R < gack
+         THEN \* follower is behind the leader's ack: reset its append index to ack + 1
+              IF rpcfail = "reset"
+                THEN UNCHANGED <<lLog, lA, lQ, cons, gack, fLog, fA, fQ>>
+                ELSE /\ fA' = gack /\ fQ' = gack        \* FanOutQueue.SetAppendedSeq(ack)
+                     /\ cons' = gack                     \* ResetReplicaIndex(ack + 1)
+                     /\ UNCHANGED <<lLog, lA, lQ, gack, fLog>>
+       ELSE IF (IF FixLostTail THEN R >= appendIdx ELSE R > appendIdx)
+         THEN \* follower is ahead of the leader's log: ResetAppendIndex(next) (queue and every group)
+              /\ lA' = R /\ lQ' = R /\ cons' = R /\ gack' = R
+              /\ UNCHANGED <<lLog, fLog, fA, fQ>>
+         ELSE \* rewind the replica cursor to what the follower needs next
+              /\ cons' = R /\ gack' = AckTo(R, R, gack)
+              /\ UNCHANGED <<lLog, lA, lQ, fLog, fA, fQ>>
 
 \* IsReady closes the old stream; on success partition.replica() calls Connect() right away
 \* (`IsReady() && Connect()`), modelled as one step; rpcfail = "connect" is a failing stream creation
 HandshakeStep(rpcfail) ==
   /\ Handshake(rpcfail)
-  /\ stream' = IF st' = "ready" THEN "open" ELSE "none"
-  /\ aligned' = (aligned \/ st' = "ready" \/ rpcfail = "connect")
+  /\ stream' = IF HsResult(rpcfail) = "ready" THEN "open" ELSE "none"
+  /\ aligned' = (aligned \/ HsResult(rpcfail) = "ready" \/ rpcfail = "connect")
 
 \* ---- one replication round; fault: "none" | "send" | "recv" | "fput"
 Step(fault) ==
